@@ -405,6 +405,12 @@ func acceptAfter(p, key []byte, refusedCalls bool) (ok bool, why string, pn *cor
 			why = "not aka"
 			return
 		}
+		if len(p)%7 == 1 {
+			// the receiver LOOKS at what it received before verifying it (network name in AT_KDF_INPUT, RES, ...):
+			// reading attributes must not change the packet
+			_ = bridge.ObserveAKA(a)
+			core.GlobalCount("receiver_read_all_attributes_before_computing")
+		}
 		if refusedCalls {
 			for _, bad := range []struct {
 				t eap.EapAkaPrimeAttrType
@@ -462,6 +468,10 @@ func c15Sender(k *core.Case) {
 		le, err = bridge.BuildEAP(e) // holds an arbitrary previous AT_MAC value
 		if err != nil {
 			return
+		}
+		if k.Index%7 == 1 {
+			_ = bridge.ObserveEAP(le) // the sender reads back what it has set before computing
+			k.Count("sender_read_all_attributes_before_computing", 1)
 		}
 		mac, err = le.CalcEapAkaPrimeAtMAC(key)
 		if err != nil {
@@ -814,6 +824,6 @@ func c15(c *core.Ctx) {
 		k.Count("parallel_sessions_agree", 1)
 		k.Distinct(fmt.Sprintf("parallel|%d", len(ss)))
 	})
-	c.Require("receiver_made_refused_setter_calls_first", "parallel_sessions_agree", "sender_receiver_agree", "reference_packets_accepted", "reference_packets_over_4k", "exhaustive_flip_packets", "flip_region_attr-padding", "flip_region_attr-reserved-or-bitlen",
+	c.Require("receiver_read_all_attributes_before_computing", "sender_read_all_attributes_before_computing", "receiver_made_refused_setter_calls_first", "parallel_sessions_agree", "sender_receiver_agree", "reference_packets_accepted", "reference_packets_over_4k", "exhaustive_flip_packets", "flip_region_attr-padding", "flip_region_attr-reserved-or-bitlen",
 		"flip_region_mac-value", "flip_region_eap-header", "flip_region_aka-header", "flip_region_attr-type", "flip_region_attr-length", "flip_region_attr-value")
 }
